@@ -18,6 +18,7 @@ import (
 	"crypto/x509/pkix"
 	"encoding/asn1"
 	"math/big"
+	"math/bits"
 	"time"
 )
 
@@ -237,21 +238,23 @@ type asmSingle struct {
 }
 
 type asmSpec struct {
-	ca        int // issuer whose name/key hashes go into the CertIDs
-	signer    *ent
-	sigHash   int
-	status    int  // OCSPResponseStatus
-	noBytes   bool // omit responseBytes
-	badType   bool
-	rtag      int  // responder id tag
-	rgarbage  bool // responder id content that does not decode
-	singles   []asmSingle
-	certs     [][]byte
-	flipSig   bool // corrupt the signature after signing
-	swapTBS   bool // sign, then replace the TBS by one with every status flipped to good ("tampering")
-	trailOut  bool
-	trailIn   bool
-	produced  int64
+	ca       int // issuer whose name/key hashes go into the CertIDs
+	signer   *ent
+	sigHash  int
+	status   int  // OCSPResponseStatus
+	noBytes  bool // omit responseBytes
+	badType  bool
+	rtag     int  // responder id tag
+	rgarbage bool // responder id content that does not decode
+	singles  []asmSingle
+	certs    [][]byte
+	flipSig  bool // corrupt the signature after signing
+	swapTBS  bool // sign, then replace the TBS by one with every status flipped to good ("tampering")
+	trailOut bool
+	trailIn  bool
+	produced int64
+	sigTZ    int // re-sign (ProducedAt moved by a minute each time) until the signature ends in at least this many zero bits
+	padBits  int // declare this many unused bits in the signature BIT STRING (needs sigTZ >= padBits to be well-formed DER)
 }
 
 func utc(sec int64) time.Time { return time.Unix(sec, 0).UTC() }
@@ -312,8 +315,19 @@ func hashOr1(h int) int {
 
 // assemble returns the DER of an OCSPResponse following the spec.
 func assemble(sp *asmSpec) []byte {
+	if sp.padBits > sp.sigTZ {
+		sp.sigTZ = sp.padBits
+	}
 	tbs := buildTBS(sp, false)
 	ai, sig := signWith(sp.signer, sp.sigHash, tbs)
+	for attempt := 0; attempt < 4000 && bits.TrailingZeros8(sig[len(sig)-1]) < sp.sigTZ; attempt++ {
+		sp.produced += 60
+		tbs = buildTBS(sp, false)
+		ai, sig = signWith(sp.signer, sp.sigHash, tbs)
+	}
+	if bits.TrailingZeros8(sig[len(sig)-1]) < sp.padBits {
+		panic("assemble: no signature with enough trailing zero bits")
+	}
 	if sp.flipSig {
 		sig = append([]byte{}, sig...)
 		sig[len(sig)/2+3] ^= 0x10
@@ -322,7 +336,7 @@ func assemble(sp *asmSpec) []byte {
 		tbs = buildTBS(sp, true)
 	}
 	b := mBasicOut{TBSResponseData: asn1.RawValue{FullBytes: tbs}, SignatureAlgorithm: ai,
-		Signature: asn1.BitString{Bytes: sig, BitLength: 8 * len(sig)}}
+		Signature: asn1.BitString{Bytes: sig, BitLength: 8*len(sig) - sp.padBits}}
 	for _, c := range sp.certs {
 		b.Certificates = append(b.Certificates, asn1.RawValue{FullBytes: c})
 	}
